@@ -325,6 +325,20 @@ def _strip_packed(cls, tree):
     return out
 
 
+def _drop_empty_packed(cls, tree):
+    out = {}
+    for f in ts.schema(cls):
+        v = tree.get(f.name)
+        if v is None or (f.kind == "packed" and len(v) == 0):
+            continue
+        if f.kind == "struct" and isinstance(v, dict):
+            v = _drop_empty_packed(f.arg, v)
+        elif f.kind == "list" and isinstance(v, list):
+            v = [_drop_empty_packed(f.arg, item) if isinstance(item, dict) else item for item in v]
+        out[f.name] = v
+    return out
+
+
 def _link_cause(ids):
     if len(ids) >= 2:
         return "two-or-more-ids"
@@ -379,6 +393,8 @@ def _decode_conformant(cls, tree, data):
                 worst = max(packed, key=lambda p: len(p[3]))
                 return [(f"link-list-misdecoded:{worst[1].__name__}:{_link_cause(worst[3])}", {"field": worst[0], "ids": worst[3], "outcome": f"{kind}: {e}"[:200]})], None
         return [(f"{kind}:{cls.__name__}", {"error": str(e)[:200], "data_len": len(data), "data_head": data[:48]})], None
+    # weakest reading: a received packed list with no entries may come back as [] or stay unset
+    got, tree = _drop_empty_packed(cls, got), _drop_empty_packed(cls, tree)
     if got != tree:
         return _classify("decode", ts.diff(cls, tree, got)), obj
     return [], obj
@@ -460,7 +476,7 @@ def case_links(p):
         except Exception as e:  # noqa: BLE001
             viol.append((f"to_dict-raises:{type(e).__name__}:{cls.__name__}", {"ids": p["ids"]}))
         else:
-            linked = d.get("linked", [])
+            linked = d.get("linked") or []
             if list(linked) != list(p["ids"]) and not viol:
                 viol.append((f"link-list-misdecoded:{cls.__name__}:{_link_cause(p['ids'])}", {"to_dict_linked": linked, "ids": p["ids"]}))
     return _uniq(viol)
@@ -590,6 +606,8 @@ def case_charvalue(p):
     try:
         val = ch.value
         got = [ts.plain(cls, v) for v in val] if p["array"] else [ts.plain(cls, val)]
+    except ts.Shape as e:
+        return [(f"char-value-wrong-python-type:{cls.__name__}", {"what": str(e)[:200]})]
     except Exception as e:  # noqa: BLE001
         return [(f"char-value-raises:{type(e).__name__}:{cls.__name__}", {"error": str(e)[:200]})]
     if got != trees:
